@@ -526,3 +526,35 @@ V('C15', 'witness-flag-skips-the-coinbase', CORE, "        for tx in txs:\n     
 V('C10', 'zero-count-by-strip', B58, "    czero = 0\n    pad = 0\n    for c in b:\n        if c == czero:\n            pad += 1\n        else:\n            break\n", "    pad = len(b) - len(b.strip(b'\\x00'))\n", 'C10.A1', scope='encode')
 V('C10', 'benign-zero-count-by-lstrip', B58, "    czero = 0\n    pad = 0\n    for c in b:\n        if c == czero:\n            pad += 1\n        else:\n            break\n", "    pad = len(b) - len(b.lstrip(b'\\x00'))\n", 'SILENT', scope='encode')
 V('C09', 'witness-list-stored-as-given', CORE, "object.__setattr__(self, 'vtxinwit', tuple(vtxinwit))", "object.__setattr__(self, 'vtxinwit', vtxinwit)", 'C09.R5', scope='CTxWitness.__init__')
+
+# ------------------------------------------------------------------------------------------------ rules added in the sixth round (one-token defects; newer-Python spellings read by LOWER)
+HASH_ONE_LIT = "HASH_ONE = b'\\x01\\x00\\x00\\x00\\x00\\x00\\x00\\x00\\x00\\x00\\x00\\x00\\x00\\x00\\x00\\x00\\x00\\x00\\x00\\x00\\x00\\x00\\x00\\x00\\x00\\x00\\x00\\x00\\x00\\x00\\x00\\x00'"
+V('C05', 'entry-compares-with-the-spending-outputs', EVAL, "if txin.prevout.n >= len(txFrom.vout):", "if txin.prevout.n >= len(txTo.vout):", 'C05.E1', scope='VerifySignature')
+V('C05', 'entry-verifies-the-other-script', EVAL, "VerifyScript(txin.scriptSig, txout.scriptPubKey, txTo, inIdx)", "VerifyScript(txout.scriptPubKey, txin.scriptSig, txTo, inIdx)", 'C05.E1', scope='VerifySignature')
+V('C05', 'cleanstack-tests-the-kept-stack', EVAL, "        if len(stack) != 1:", "        if len(stackCopy) != 1:", 'C05.V1', scope='VerifyScript')
+V('C05', 'nulldummy-wants-a-zero-byte', EVAL, "        if stack[-1] != b'':", "        if stack[-1] != b'\\x00':", 'C05.L1', scope='_CheckMultiSig')
+V('C05', 'digest-for-the-signature-version', SCRIPT, "(h, err) = RawSignatureHash(script, txTo, inIdx, hashtype)", "(h, err) = RawSignatureHash(script, txTo, sigversion, hashtype)", 'C05.P1', scope='SignatureHash')
+V('C05', 'kept-stack-is-the-stack-itself', EVAL, "stackCopy = list(stack)", "stackCopy = stack", ['C05.V1', 'C06.V1'], scope='VerifyScript')
+V('C05', 'benign-kept-stack-by-slice', EVAL, "stackCopy = list(stack)", "stackCopy = stack[:]", 'SILENT', scope='VerifyScript')
+V('C06', 'benign-kept-stack-by-copy-method', EVAL, "stackCopy = list(stack)", "stackCopy = stack.copy()", 'SILENT', scope='VerifyScript')
+V('C10', 'short-string-guard-refuses-empty-payload', B58, "        if len(k) < 5:", "        if len(k) <= 5:", 'C10.L1', scope='CBase58Data.__new__')
+V('C03', 'benign-hash-one-by-to-bytes', SCRIPT, HASH_ONE_LIT, "HASH_ONE = (1).to_bytes(32, 'little')", 'SILENT', scope='RawSignatureHash')
+V('C03', 'hash-one-big-endian', SCRIPT, HASH_ONE_LIT, "HASH_ONE = (1).to_bytes(32, 'big')", 'C03.D1', scope='RawSignatureHash')
+V('C08', 'benign-f-string-message', SCRIPT, "raise ValueError('op %r is not an OP_N' % self)", "raise ValueError(f'op {self!r} is not an OP_N')", 'SILENT', scope='CScriptOp.decode_op_n')
+V('C17', 'benign-walrus-in-the-comparison', CORE, "    hash = uint256_from_str(hash)\n    if hash > target:", "    if (hash := uint256_from_str(hash)) > target:", 'SILENT', scope='CheckProofOfWork')
+V('C17', 'walrus-with-equality-refused', CORE, "    hash = uint256_from_str(hash)\n    if hash > target:", "    if (hash := uint256_from_str(hash)) >= target:", 'C17.R1', scope='CheckProofOfWork')
+V('C16', 'benign-params-by-or', CORE, "    if not params:\n      params = coreparams\n", "    params = params or coreparams\n", 'SILENT', scope='MoneyRange')
+V('C16', 'params-default-bound-to-the-core-chain', CORE, "    if not params:\n      params = coreparams\n", "    params = params or CoreMainParams\n", 'C16.T1', scope='MoneyRange')
+V('C18', 'benign-one-element-unpacking', MSG, 'c.nonce = struct.unpack(b"<Q", ser_read(f, 8))[0]', '(c.nonce,) = struct.unpack(b"<Q", ser_read(f, 8))', 'SILENT', scope='msg_ping.msg_deser')
+V('C18', 'one-element-unpacking-signed', MSG, 'c.nonce = struct.unpack(b"<Q", ser_read(f, 8))[0]', '(c.nonce,) = struct.unpack(b"<q", ser_read(f, 8))', 'C18.L1', scope='msg_ping.msg_deser')
+V('C06', 'benign-within-by-conditional-expression', EVAL, "                v = (bn2 <= bn1) and (bn1 < bn3)\n                if v:\n                    stack.append(b\"\\x01\")\n                else:\n                    stack.append(b\"\")",
+  "                stack.append(b\"\\x01\" if bn2 <= bn1 < bn3 else b\"\")", 'SILENT', scope='_EvalScript')
+V('C06', 'within-includes-the-upper-bound', EVAL, "                v = (bn2 <= bn1) and (bn1 < bn3)\n                if v:\n                    stack.append(b\"\\x01\")\n                else:\n                    stack.append(b\"\")",
+  "                stack.append(b\"\\x01\" if bn2 <= bn1 <= bn3 else b\"\")", 'C06.O1', scope='_EvalScript')
+V('C06', 'within-arms-swapped', EVAL, "                v = (bn2 <= bn1) and (bn1 < bn3)\n                if v:\n                    stack.append(b\"\\x01\")\n                else:\n                    stack.append(b\"\")",
+  "                stack.append(b\"\" if bn2 <= bn1 < bn3 else b\"\\x01\")", 'C06.O1', scope='_EvalScript')
+V('C15', 'benign-zeroed-coinbase-by-display', CORE, "        hashes[0] = b'\\x00' * 32\n        return CBlock.build_merkle_tree_from_txids(hashes)", "        return CBlock.build_merkle_tree_from_txids([b'\\x00' * 32, *hashes[1:]])", 'SILENT',
+  scope='CBlock.build_witness_merkle_tree_from_txs')
+V('C15', 'coinbase-entry-is-31-zero-bytes', CORE, "        hashes[0] = b'\\x00' * 32\n        return CBlock.build_merkle_tree_from_txids(hashes)", "        return CBlock.build_merkle_tree_from_txids([b'\\x00' * 31, *hashes[1:]])", 'C15.M1',
+  scope='CBlock.build_witness_merkle_tree_from_txs')
+V('C13', 'benign-undecodable-der-test-twice', KEY, "        if not norm_sig:\n            return False", "        if not norm_sig or norm_sig.value is None:\n            return False", 'SILENT', scope='CECKey.verify')
